@@ -186,6 +186,10 @@ def check(ctx):
 
 def replay(ctx, data):
     case = data['case']
+    if 'streams' in case:
+        from harness.props import multistream
+        multistream.replay(ctx, case)
+        return
     if isinstance(case.get('table'), dict):
         pp = case['table']['periodic_prefix']
         case['table'] = [pp[i % len(pp)] for i in range(case['n'])]
